@@ -363,6 +363,17 @@ func (f *Func) reachTarget(
 				skip = true
 				argMap[graph.VertexID(out)] = v.Value
 			}
+
+		case *valueVertex:
+			// The same holds for a named value that was given as an input
+			// or produced earlier in this call. Searching a path for it
+			// again can lead through a converter that is waiting for this
+			// very value (the name discounts differ per argument), which
+			// would wrongly be reported as unsatisfiable.
+			if v.Value.IsValid() {
+				skip = true
+				argMap[graph.VertexID(out)] = v.Value
+			}
 		}
 
 		// If we're skipping because we have this value already, there
